@@ -94,11 +94,15 @@ macro_rules! dispatch {
                 $body
             }
             "C10r" => {
-                let $p = &props::rawstream::RawStream { marathon: false };
+                let $p = &props::rawstream::RawStream { marathon: false, reads: false };
+                $body
+            }
+            "C09h" => {
+                let $p = &props::rawstream::RawStream { marathon: false, reads: true };
                 $body
             }
             "C02m" => {
-                let $p = &props::rawstream::RawStream { marathon: true };
+                let $p = &props::rawstream::RawStream { marathon: true, reads: false };
                 $body
             }
             "C01g" => {
@@ -144,7 +148,7 @@ fn components(property: &str) -> Vec<&'static str> {
         "C04" => vec!["C04", "C04g"],
         "C02" => vec!["C02", "C02m"],
         "C08" => vec!["C08"],
-        "C09" => vec!["C09p", "C09r"],
+        "C09" => vec!["C09p", "C09r", "C09h"],
         "C10" => vec!["C10", "C10r"],
         "C11" => vec!["C11"],
         "C13" => vec!["C13", "C13t"],
@@ -947,7 +951,7 @@ fn hang_check(comp: &str) -> Option<&'static str> {
         "C02" | "C02m" => Some("C02.hang"),
         "C04" | "C04g" => Some("C04.hang"),
         "C08" => Some("C08.hang"),
-        "C09p" | "C09r" => Some("C09.hang"),
+        "C09p" | "C09r" | "C09h" => Some("C09.hang"),
         "C10" | "C10r" => Some("C10.hang"),
         "C11" => Some("C11.hang"),
         "C13" | "C13t" => Some("C13.hang"),
@@ -963,7 +967,7 @@ fn cmd_selftest() -> i32 {
     let seed = seed_from_env();
     let mut bad = 0;
     for comp in [
-        "C01", "C01g", "C02", "C02m", "C04", "C04g", "C08", "C09p", "C09r", "C10", "C10r", "C11", "C13", "C13t", "C14r", "C14w",
+        "C01", "C01g", "C02", "C02m", "C04", "C04g", "C08", "C09p", "C09r", "C09h", "C10", "C10r", "C11", "C13", "C13t", "C14r", "C14w",
         "C14s", "C16", "C16t",
     ] {
         let runs = match comp {
@@ -971,6 +975,7 @@ fn cmd_selftest() -> i32 {
             "C10r" => 400,
             "C04" => 2_000,
             "C01g" | "C02m" | "C04g" => 2,
+            "C09h" => 8,
             _ => 40_000,
         };
         let mut res = vec![];
